@@ -345,7 +345,11 @@ func discharge(eng *Engine, obls []*Obligation, opt dischargeOpts) {
 				// vacuity smoke test: the assumptions must not be refutable. Models of quantified
 				// assumptions are rarely found, so "sat" or "unknown"/timeout both pass; only a
 				// proof of inconsistency ("unsat") fails the cover.
-				status, out, secs := runSolver(solvers[0], j.file, minInt(opt.timeout, 2))
+				ct := 1 // quick tier: 1 s per cover (refutations take 0.02-0.3 s when they exist); thorough: 3 s
+				if opt.timeout > 10 {
+					ct = 3
+				}
+				status, out, secs := runSolver(solvers[0], j.file, ct)
 				mu.Lock()
 				j.o.Solver = solvers[0].name
 				j.o.Secs = secs
